@@ -760,7 +760,12 @@ def crash_one(st, rep, case, seed, arm, ren):
         shutil.rmtree(d, ignore_errors=True)
         os.makedirs(d)
         old = None if scenario == 'no-old-file' else O
-        if old is not None:
+        if scenario == 'symlink-target':
+            # the target path is a symbolic link to a file that holds the old text
+            real = os.path.join(d, 'real_' + os.path.basename(target))
+            wr(real, old)
+            os.symlink(real, target)
+        elif old is not None:
             wr(target, old)
 
         def observe(where):
@@ -812,7 +817,8 @@ def crash_one(st, rep, case, seed, arm, ren):
         attempt(*case['only'])
         return
     rnd = random.Random(seed)
-    for scenario in ('replace', 'no-old-file', 'rename-fails-once', 'rename-fails-always'):
+    for scenario in ('replace', 'no-old-file', 'rename-fails-once', 'rename-fails-always',
+                     'symlink-target'):
         attempt(scenario, 'none')
         # the file system as a process dying at each LINE event leaves it, in one run
         nlines = attempt(scenario, 'line-snapshot')
@@ -821,7 +827,7 @@ def crash_one(st, rep, case, seed, arm, ren):
             attempt(scenario, 'line-raise', i)
         for i in rnd.sample(range(1, nlines + 1), 2):      # cross-check with a real os._exit
             attempt(scenario, 'line-exit', i)
-        if scenario in ('replace', 'no-old-file'):
+        if scenario in ('replace', 'no-old-file', 'symlink-target'):
             L = len(N)
             rep.stat('crash_output_bytes', L)
             pts = sorted({0, 1, 2, L // 2, L - 2, L - 1, L} | {rnd.randrange(L) for _ in range(40)})
